@@ -452,7 +452,7 @@ func (m *memoryEvictor) getPodEvictInfoAndSortByPriority(evictionPolicy string, 
 			klog.Warningf("get pod %v metrics failed, error %v", pod.UID, err)
 			continue
 		}
-		podInfo.MemoryUsed = int64(result * 1000)
+		podInfo.MemoryUsed = int64(result)
 		_, memoryRequest := qosmanagerUtil.GetRequestTypeAndValueFromPod(pod, corev1.ResourceMemory)
 		podInfo.MemoryRequest = memoryRequest
 		podsInfos = append(podsInfos, podInfo)
